@@ -57,6 +57,7 @@ type Op struct {
 	ESegs []Seg  `json:"es,omitempty"`
 	Buf   int    `json:"buf,omitempty"` // >0: use (and keep) caller-owned buffer number Buf for the entropy
 	Cap   int    `json:"cap,omitempty"` // >0: give the entropy slice Cap bytes of spare capacity filled with 0xA5 and report them too
+	Arena bool   `json:"ar,omitempty"`  // pass the entropy in a caller-owned buffer that is REUSED (overwritten in place) by every Arena call of the same length, as a caller recycling its buffer would
 
 	N int64 `json:"n,omitempty"` // word count
 
